@@ -93,6 +93,16 @@ class LinTied(_Base):
         return out
 
 
+class LinInt(_Base):
+    """Integer-valued decision function returned with an integer dtype (vote / rule counters, quantised scorers)."""
+
+    def decision_function(self, X):
+        X = np.asarray(X, dtype=np.float64)
+        out = np.round(self.w * X[:, self.feat] * 3.0).astype(np.int64)
+        _emit(self.log, (self._token(), "predict", X[:, -1].astype(np.int64).copy(), out.astype(np.float64)))
+        return out
+
+
 class LinOffset(_Base):
     """Linear decision function on a large intercept (raw output ~ 2e6 +- a few units)."""
 
